@@ -244,7 +244,13 @@ func (k *ExtendedKey) Child(i uint32) (*ExtendedKey, error) {
 		// When the child is a hardened child, the key is known to be a
 		// private key due to the above early return.  Pad it with a
 		// leading zero as required by [BIP32] for deriving the child.
-		copy(data[1:], k.key)
+		// ser256(k) is 32 bytes: right-align a key that lost its leading
+		// zero bytes so that the data is 0x00 || ser256(k) as BIP32 requires.
+		offset := keyLen - len(k.key)
+		if offset < 1 {
+			offset = 1
+		}
+		copy(data[offset:], k.key)
 	} else {
 		// Case #2 or #3.
 		// This is either a public or private extended key, but in
